@@ -63,6 +63,12 @@ func linRun(args []string) error {
 	if hangs == 0 {
 		sink.Emit(lindrv.RunHookOrder())
 	}
+	// Get is a snapshot
+	if hangs == 0 {
+		for i, v := range lindrv.SnapVariants {
+			sink.Emit(lindrv.RunSnap(i+1, v))
+		}
+	}
 	dels := 0
 	if hangs == 0 {
 		for i, mode := range []string{"nh", "nhg"} {
